@@ -384,8 +384,8 @@ def check(ctx):
     multi = [r['path'] for (i, text, ext), r in zip(payloads, results) if isinstance(r, dict) and 'crash' not in r and r['tags']][:3]
     clean = os.path.join(common.WORK, 'c02', 'clean.po')
     with open(clean, 'w', encoding='utf-8') as f:
-        f.write('msgid ""\nmsgstr ""\n"Project-Id-Version: gizmo 1.0\\n"\n"Report-Msgid-Bugs-To: bugs@gizmo.example.net\\n"\n"POT-Creation-Date: 2012-11-01 14:42+0100\\n"\n'
-                '"PO-Revision-Date: 2012-11-01 14:42+0100\\n"\n"Last-Translator: Jakub Wilk <jwilk@jwilk.net>\\n"\n"Language-Team: Polish <pl@gizmo.example.net>\\n"\n'
+        f.write('msgid ""\nmsgstr ""\n"Project-Id-Version: gizmo 1.0\\n"\n"Report-Msgid-Bugs-To: bugs@lists.gizmo-project.org\\n"\n"POT-Creation-Date: 2012-11-01 14:42+0100\\n"\n'
+                '"PO-Revision-Date: 2012-11-01 14:42+0100\\n"\n"Last-Translator: Jakub Wilk <jwilk@jwilk.net>\\n"\n"Language-Team: Polish <pl@lists.gizmo-project.org>\\n"\n'
                 '"Language: pl\\n"\n"MIME-Version: 1.0\\n"\n"Content-Type: text/plain; charset=UTF-8\\n"\n"Content-Transfer-Encoding: 8bit\\n"\n'
                 '"Plural-Forms: nplurals=3; plural=n==1 ? 0 : n%10>=2 && n%10<=4 && (n%100<10 || n%100>=20) ? 1 : 2;\\n"\n\nmsgid "a cat"\nmsgstr "kot"\n')
     if multi:
@@ -394,7 +394,7 @@ def check(ctx):
             o, e, rc = cli_lines(pth, False)
             single[pth] = o
         if single[clean] != '':
-            ctx.notes.append('the clean catalog is not problem-free: %r' % single[clean][:200])
+            raise RuntimeError('harness error: the catalog meant to be problem-free is not: %r' % single[clean][:300])
         for order in ([clean] + multi, multi[:1] + [clean] + multi[1:], multi + [clean], [clean, clean] + multi[:1]):
             for j in ('2', '3'):
                 env = dict(os.environ, PYTHONPATH=common.REPO, TERM='xterm')
